@@ -5,6 +5,7 @@
   which quantify over all `Params`.
 -/
 import YaraModel.Model.Scanner
+import YaraModel.Spec.ScannerPlace
 namespace YaraModel.Scan
 
 /-- conditions of the generated rule sets -/
@@ -19,6 +20,14 @@ inductive Cond
   | rd (w off v : Nat)            -- uint<8w>(off) == v
   | modEq (m v : Nat)             -- <module m>.<its probe field> == v
   | hash (off len : Nat)          -- hash.md5(off, len) == md5 of that range of the whole input
+  | inR (s lo hi : Nat)           -- $s in (lo..hi)
+  | offEq (s i v : Nat)           -- @s[i] == v
+  | cntIn (s lo hi n : Nat)       -- #s in (lo..hi) == n
+  | lenEq (s i v : Nat)           -- !s[i] == v
+  | ofAt (n off : Nat) (ss : List Nat)      -- n of ($..) at off
+  | ofIn (n lo hi : Nat) (ss : List Nat)    -- n of ($..) in (lo..hi)
+  | forAt (off : Nat) (ss : List Nat)       -- for any of ($..) : ($ at off)
+  | forIn (lo hi : Nat) (ss : List Nat)     -- for any of ($..) : ($ in (lo..hi))
   | ref (r : Nat)                 -- reference to an earlier rule
   | burn                          -- for all i in (0..300) : (i >= 0)
   | not (a : Cond) | and (a b : Cond) | or (a b : Cond)
@@ -36,6 +45,8 @@ def Cond.need : Cond → Nat
 structure BlockFacts where
   ep : Option Nat                 -- yr_get_entry_point_offset on this block alone
   mods : List (Nat × Nat)         -- module m parses this block; value of its probe field
+  epPM : Option Nat := none       -- with SCAN_FLAGS_PROCESS_MEMORY: yr_get_entry_point_address (block base included)
+  modsPM : List (Nat × Nat) := [] -- with SCAN_FLAGS_PROCESS_MEMORY
   cands : List Cand
   err : Option Nat                -- verifying candidates in this block fails with this error code
 
@@ -63,7 +74,15 @@ def Cond.prog (F : Facts) (v : View) : Cond → (Option Bool → Prog) → Prog
   | .ff, k => k (some false)
   | .str s, k => k (some (!(tget v.found s).isEmpty))
   | .cnt s n, k => k (some (decide ((tget v.found s).length ≥ n)))
-  | .strAt s off, k => k (some ((tget v.found s).any fun m => m.base + m.off == off))
+  | .strAt s off, k => k (some (PlaceOps.foundAt v.found s off))
+  | .inR s lo hi, k => k (some (PlaceOps.foundIn v.found s lo hi))
+  | .offEq s i val, k => k ((PlaceOps.offset v.found s i).map (· == val))
+  | .cntIn s lo hi n, k => k (some (PlaceOps.countIn v.found s lo hi == n))
+  | .lenEq s i val, k => k ((PlaceOps.length v.found s i).map (· == val))
+  | .ofAt n off ss, k => k (some (decide (PlaceOps.ofAt v.found ss off ≥ n)))
+  | .ofIn n lo hi ss, k => k (some (decide (PlaceOps.ofIn v.found ss lo hi ≥ n)))
+  | .forAt off ss, k => k (some (decide (PlaceOps.ofAt v.found ss off ≥ 1)))
+  | .forIn lo hi ss, k => k (some (decide (PlaceOps.ofIn v.found ss lo hi ≥ 1)))
   | .fsEq n, k => k (v.fileSize.map (· == n))
   | .fsGe n, k => k (v.fileSize.map (decide <| · ≥ n))
   | .epDef, k => k (v.entryPoint.map fun _ => true)
@@ -82,7 +101,7 @@ def Cond.prog (F : Facts) (v : View) : Cond → (Option Bool → Prog) → Prog
       match v.modules.find? (fun p => p.1 == m) with
       | some (_, some b) =>
         (match b.data.bind F.blocks with
-         | some bf => k ((bf.mods.find? fun p => p.1 == m).map fun p => p.2 == val)
+         | some bf => k (((if v.processMemory then bf.modsPM else bf.mods).find? fun p => p.1 == m).map fun p => p.2 == val)
          | none => k none)
       | _ => k none
   | .hash off len, k =>
@@ -119,18 +138,22 @@ structure RuleSpec where
   rule : Rule
   cond : Cond
 
-def mkParams (rs : List RuleSpec) (imports : List Nat) (maxMatches : Nat) (walking : Nat → Bool) (F : Facts) : Params :=
+def mkParams (rs : List RuleSpec) (imports : List Nat) (maxMatches : Nat) (walking : Nat → Bool) (F : Facts)
+    (single : List Nat := []) : Params :=
   { rules := rs.map (·.rule)
     imports := imports
     strRule := fun s => ((enum rs).find? fun p => s ∈ p.2.rule.strings).map (·.1) |>.getD 0
     maxMatches := maxMatches
     cands := fun key => (F.blocks key).map (·.cands) |>.getD []
-    ep := fun key _ => (F.blocks key).bind (·.ep)
+    ep := fun pm key _ _ => (F.blocks key).bind (fun bf => if pm then bf.epPM else bf.ep)
+    singleMatch := fun s => s ∈ single
     scanErr := fun key => (F.blocks key).bind (·.err)
     cond := fun i v => match rs[i]? with | some r => condProg F r.cond v | none => .ret false
-    modParse := fun m =>
+    modParse := fun pm m =>
       if walking m then
-        some fun b => match b.data.bind F.blocks with | some bf => bf.mods.any (·.1 == m) | none => false
+        some fun b => match b.data.bind F.blocks with
+          | some bf => (if pm then bf.modsPM else bf.mods).any (·.1 == m)
+          | none => false
       else none }
 
 end YaraModel.Scan
